@@ -123,6 +123,75 @@ class _Reqs:
             return False, "C04 structure rules fail: " + bad[0]["detail"]
         return True, "C04 index-algebra, padding and reset rules hold"
 
+    def req_audited_assertions_unchanged(self):
+        """The three assertions whose panic sites are audited assert what the audit says they assert: compute_root starts with
+        `!levels[0].is_empty()` and ends with `levels[top].len() == 1`; encode ends with `out.len() == self.encoded_size()`.  (Audited sites are
+        matched by shape, and an assertion with another condition has the same shape.)"""
+        P, W = self.P, self.W
+        def panics(path):
+            fn = P.fns.get(path)
+            if fn is None:
+                return None, None, []
+            ev = W.ev(path)
+            IN = flow.must_facts(fn, ev)
+            out = []
+            for bb, t in fn.calls():
+                q = strip_generics(t["fn"].get("path", ""))
+                if q.startswith("core::panicking::") or q.endswith("begin_panic"):
+                    out.append((bb, t.get("mac"), flow.rel_facts_at(IN, bb)))
+            return fn, ev, out
+        fn, ev, ps = panics(MERKLE + "::compute_root")
+        if fn is None:
+            return False, "compute_root missing"
+        lv = ("field", ("param", fn.path, 1), "levels")
+        for (bb, mac, rels) in ps:
+            if mac == "assert":
+                if not any((r[0] == "Pred" and r[1] == "is_empty" and r[2] == ("index", lv, ("int", 0))) or
+                           (r[0] == "Eq" and isinstance(r[1], tuple) and r[1][:2] == ("len", ("index", lv, ("int", 0))) and r[2] == ("int", 0)) for r in rels):
+                    return False, "the assert! in compute_root is no longer `!self.levels[0].is_empty()`"
+            elif mac == "assert_eq":
+                if not any(r[0] == "Ne" and isinstance(r[1], tuple) and r[1][0] == "len" and isinstance(r[1][1], tuple) and r[1][1][:2] == ("index", lv) and r[2] == ("int", 1) for r in rels):
+                    return False, "the assert_eq! in compute_root is no longer `levels[top].len() == 1`"
+        fn2, ev2, ps2 = panics(MSG + "::encode")
+        if fn2 is None:
+            return False, "encode missing"
+        for (bb, mac, rels) in ps2:
+            if mac in ("assert_eq", "assert"):
+                def is_size(x):
+                    return isinstance(x, tuple) and x and x[0] == "call" and x[1].endswith("RtMessage::encoded_size") and x[2] and x[2][0] == ("param", fn2.path, 1)
+                def is_outlen(x):
+                    return isinstance(x, tuple) and x and x[0] == "len" and isinstance(x[1], tuple) and x[1][0] == "obj"
+                if not any(r[0] == "Ne" and ((is_outlen(r[1]) and is_size(r[2])) or (is_outlen(r[2]) and is_size(r[1]))) for r in rels):
+                    return False, "the length assertion in encode is no longer `out.len() == self.encoded_size()`"
+        return True, "compute_root asserts non-empty leaves and a single root node; encode asserts len == encoded_size()"
+
+    def req_path_depth_assert_covers_u8_batches(self):
+        """Every assertion in get_paths about the walked depth allows at least the 8 levels a batch of 255 leaves has (`level <= K`, K >= 8)."""
+        P, W = self.P, self.W
+        fn = P.fns.get(MERKLE + "::get_paths")
+        if fn is None:
+            return False, "MerkleTree::get_paths missing"
+        ev = W.ev(fn.path)
+        IN = flow.must_facts(fn, ev)
+        n = 0
+        for bb, t in fn.calls():
+            p = strip_generics(t["fn"].get("path", ""))
+            if not (p.startswith("core::panicking::") or p.endswith("begin_panic")):
+                continue
+            n += 1
+            ok = False
+            for r in flow.rel_facts_at(IN, bb):
+                # the panic is reached when the depth exceeds K: K < depth (or K <= depth)
+                if r[0] in ("Lt", "Le") and isinstance(r[1], tuple) and r[1][0] == "int":
+                    k = r[1][1] + (0 if r[0] == "Lt" else -1)
+                    if k >= 8:
+                        ok = True
+                    else:
+                        return False, "get_paths asserts a depth of at most %d, a batch of 255 requests has 8 levels" % k
+            if not ok:
+                return False, "an assertion in get_paths is not a depth bound of at least 8 levels"
+        return True, "%d depth assertion(s) in get_paths allow >= 8 levels" % n
+
     def req_batch_size_is_u8(self):
         P, W = self.P, self.W
         adt = P.adts.get(SERVER)
